@@ -112,10 +112,12 @@ def check_sign(case):
     stub = rng.ScriptedSecrets(script)
     saved = em.secrets
     em.secrets = stub
+    rng.sync(em.secrets)
     try:
         res = attempt(em.sign, d, z)
     finally:
         em.secrets = saved
+        rng.sync(em.secrets)
     if raised(res):
         f.add(f"sign/raises-{res.kind}/{ztag}", res)
         return cls, f
@@ -126,6 +128,10 @@ def check_sign(case):
     r, s = rs_
     if not stub.calls:
         cls.append("rng-not-consulted")  # e.g. deterministic nonces: the scripted-draw classes cannot be produced
+    elif not any(c[2] and (ec.mul(c[2] % N, ec.G) or (0,))[0] % N == r for c in stub.calls if c[0] == "randbelow"):
+        # the library maps its draws to the nonce in another way than k = draw (e.g. k = draw + 1 over a smaller bound):
+        # equally fine, but the nonce then cannot be steered by scripting the draw
+        cls.append("rng-draw-not-the-nonce")
     if any(c[2] == 0 for c in stub.calls):
         cls.append("nt:draw-zero")
     if len(stub.calls) > 1:
@@ -142,10 +148,12 @@ def check_sign(case):
         cls.append("nt:pair-" + pair["differs"])
         stub2 = rng.ScriptedSecrets(pair["script"])
         em.secrets = stub2
+        rng.sync(em.secrets)
         try:
             res2 = attempt(em.sign, pair["d"], pair["z"])
         finally:
             em.secrets = saved
+            rng.sync(em.secrets)
         if raised(res2):
             f.add(f"sign/raises-{res2.kind}/pair", res2)
         else:
@@ -203,21 +211,25 @@ def check_sigapi(case):
         oflag = ((eff_flag & 0x7F) % 3 + 1) | (0 if eff_flag & 0x80 else 0x80)
         real = em.secrets
         em.secrets = rng.ScriptedSecrets([(k * 7 + 11) % N or 2])
+        rng.sync(em.secrets)
         try:
             o = attempt(bits.sig, key, msg + (b"" if preimage else oflag.to_bytes(4, "little")), msg_preimage=not preimage,
                         **({} if not preimage else {"sighash_flag": oflag}))
         finally:
             em.secrets = real
+            rng.sync(em.secrets)
         if isinstance(o, (bytes, bytearray)):
             attempt(bits.sig_verify, bytes(o), ec.sec1_encode(ec.pub(d), True), msg, msg_preimage=not preimage)
         cls.append("nt:after-same-key-and-bytes-in-other-mode")
     stub = rng.ScriptedSecrets([k])
     saved = em.secrets
     em.secrets = stub
+    rng.sync(em.secrets)
     try:
         sig = attempt(bits.sig, key, msg, sighash_flag=flag, msg_preimage=preimage)
     finally:
         em.secrets = saved
+        rng.sync(em.secrets)
     mode = "preimage" if preimage else "plain"
     if raised(sig):
         f.add(f"sig/raises-{sig.kind}/{mode}", sig)
@@ -230,12 +242,16 @@ def check_sigapi(case):
     if has_flag:
         last = sig[-1] if sig else None
         f.expect(last == (eff_flag & 0xFF), f"sighash-byte/ne-requested/{mode}", f"{last:#x} vs {eff_flag:#x}" if last is not None else f"(empty) vs {eff_flag:#x}")
+    if 63 <= len(dersig) <= 65:
+        cls.append(f"nt:der-length-{len(dersig)}")
     rs = der.decode_strict(dersig)
     lrs = der.decode_lenient(dersig)
     shape = "+".join(sorted(set(c[3:] for c in (_len_class(lrs[0], "r") + _len_class(lrs[1], "s"))))) if lrs else "unparseable"
     if not f.expect(rs is not None, f"der/not-strict-bip66/{shape or 'full'}", dersig.hex()):
         return cls, f
     r2, s2 = rs
+    if r2 != r:
+        cls.append("rng-draw-not-the-nonce" if stub.calls else "rng-not-consulted")  # the nonce cannot be steered on this tree
     dd = attempt(bits.utils.der_decode_sig, dersig)
     f.expect(not raised(dd) and seq(dd) == (r2, s2), f"der/lib-decode-ne-values/{shape or 'full'}", repr(dd)[:120])
     if _check_sig_values(f, cls, d, z, r2, s2, mode) and has_flag:
@@ -297,6 +313,7 @@ def check_small(case):
             for k in range(0, n):
                 stub = rng.ScriptedSecrets([k])
                 em.secrets = stub
+                rng.sync(em.secrets)
                 res = attempt(em.sign, d, z)
                 if raised(res):
                     f.add(f"small/sign-raises-{res.kind}", f"p={p} d={d} z={z} k={k}: {res}")
@@ -316,6 +333,7 @@ def check_small(case):
                     return cls, f
     finally:
         em.secrets = saved
+        rng.sync(em.secrets)
     return cls, f
 
 
@@ -393,7 +411,10 @@ def sigapi_cases(draw):
         "target_s": None,
     }
     if mode == "target-s":
-        case["target_s"] = draw(st.sampled_from([1, 0x7F, 0x80, 0xFF, 0x80 << 240, 0xFF << 232, 0x80 << 232, N // 2, N // 2 + 1, N - 0x80, N - (0x80 << 240), N - 1]) | st.integers(1, N - 1))
+        # incl. s of 24..27 bytes: with a 32/33-byte r the DER signature is then 62..66 bytes long (64 = the length of
+        # the fixed-width r || s form, 65 with the sighash byte)
+        case["target_s"] = draw(st.sampled_from([1, 0x7F, 0x80, 0xFF, 0x80 << 240, 0xFF << 232, 0x80 << 232, N // 2, N // 2 + 1, N - 0x80, N - (0x80 << 240), N - 1]
+                                                + [int.from_bytes(b"\x5a" * n, "big") for n in (24, 25, 25, 26, 26, 27)]) | st.integers(1, N - 1))
     elif mode == "short-r":
         case["k"] = draw(st.sampled_from(short_r_nonces()))
     return case
@@ -402,11 +423,11 @@ def sigapi_cases(draw):
 def targets(tier):
     return [
         Target("sign-secp", check_sign, strategy=lambda tier: sign_cases(), budget={"quick": 700, "thorough": 12000},
-               required=["nt:digest>=n", "nt:digest==0", "nt:key-boundary-or-leading-zeros", "nt:draw-zero || rng-not-consulted", "nt:s-retry || rng-not-consulted",
-                         "nt:s-negated || rng-not-consulted", "nt:r-short || rng-not-consulted", "nt:s-short || rng-not-consulted", "nt:r-pad || rng-not-consulted",
-                         "nt:s-short-pad || rng-not-consulted", "nt:pair-key", "nt:pair-message"]),
+               required=["nt:digest>=n", "nt:digest==0", "nt:key-boundary-or-leading-zeros", "nt:draw-zero || rng-not-consulted || rng-draw-not-the-nonce", "nt:s-retry || rng-not-consulted || rng-draw-not-the-nonce",
+                         "nt:s-negated || rng-not-consulted || rng-draw-not-the-nonce", "nt:r-short || rng-not-consulted || rng-draw-not-the-nonce", "nt:s-short || rng-not-consulted || rng-draw-not-the-nonce", "nt:r-pad || rng-not-consulted || rng-draw-not-the-nonce",
+                         "nt:s-short-pad || rng-not-consulted || rng-draw-not-the-nonce", "nt:pair-key", "nt:pair-message"]),
         Target("sig-api", check_sigapi, strategy=lambda tier: sigapi_cases(), budget={"quick": 500, "thorough": 10000},
-               required=["nt:preimage", "nt:flag-anyonecanpay", "nt:s-short-pad", "nt:r-short", "nt:solved-key", "nt:msg-len-32/preimage", "nt:msg-len-32/plain", "nt:msg-len-64/preimage", "nt:msg-len-64/plain", "nt:after-same-key-and-bytes-in-other-mode"]),
+               required=["nt:preimage", "nt:flag-anyonecanpay", "nt:s-short-pad || rng-not-consulted || rng-draw-not-the-nonce", "nt:r-short || rng-not-consulted || rng-draw-not-the-nonce", "nt:solved-key", "nt:msg-len-32/preimage", "nt:msg-len-32/plain", "nt:msg-len-64/preimage", "nt:msg-len-64/plain", "nt:after-same-key-and-bytes-in-other-mode", "nt:der-length-64 || rng-not-consulted || rng-draw-not-the-nonce"]),
         Target("der-codec", check_der, enumerate_=enum_der, required=["nt:s-short-pad", "nt:r-short-pad", "nt:r-pad"]),
         Target("small-curve", check_small, enumerate_=enum_small, exhaustive=True),
     ]
